@@ -84,7 +84,8 @@ theorem C06_window_floor (mss : Nat) (ls : List TxLbl) :
     * `m_bytes_in_flight` is the sum of the recorded segment sizes, in particular ≥ 0;
     * the keys of `m_outstanding_packet_sizes` are distinct and are EXACTLY the sequence numbers
       of the segments in the network (`bag`) or delivered with the ACK still to come (`acks`),
-      i.e. sent (or retransmitted) and neither ACKed nor handed back;
+      i.e. sent (or retransmitted) and neither ACKed nor handed back; every segment in the
+      network is recorded with its own size;
     * a sequence number is in at most one place: network, ACK pending, or retransmission list;
     * no segment ever vanished unreported (`lost = []`).
     This is the invariant the pinned tree broke (`C06_asis_inflight_leaks`). -/
@@ -94,13 +95,14 @@ theorem C06_in_flight_account (mss : Nat) (ls : List TxLbl) :
       ∧ t.inFlight = sumSizes t.outstanding ∧ 0 ≤ t.inFlight
       ∧ (keys t.outstanding).Nodup
       ∧ (∀ k, k ∈ keys t.outstanding ↔ (k ∈ ids s.bag ∨ k ∈ s.acks))
+      ∧ (∀ p, p ∈ s.bag → (p.id, p.payload.length) ∈ t.outstanding)
       ∧ (ids s.bag).Nodup ∧ s.acks.Nodup ∧ (ids t.resend).Nodup
       ∧ (∀ k, k ∈ ids s.bag → k ∉ s.acks)
       ∧ (∀ k, k ∈ ids t.resend → k ∉ ids s.bag ∧ k ∉ s.acks)
       ∧ s.lost = [] := by
   obtain ⟨t, hsv, _, _⟩ := (SInv.init mss).run {} rfl rfl rfl ls
   have c := hsv.core
-  exact ⟨t, hsv.est.sock, c.acct, by rw [c.acct]; exact sumSizes_nonneg _, c.keysND, c.live, c.bagND,
+  exact ⟨t, hsv.est.sock, c.acct, by rw [c.acct]; exact sumSizes_nonneg _, c.keysND, c.live, c.sized, c.bagND,
     c.acksND, c.resendND, c.disjBA, c.disjR, hsv.lost⟩
 
 /-- nothing outstanding ⇒ nothing counted as in flight (corollary of the account) -/
@@ -220,6 +222,12 @@ example : sview (TxS.run {} (TxS.init 1475) histWriter) = ((false, 100, [(2, 100
 example : ((TxS.run {} (TxS.init 1475) histWriter).posts.map (fun c => (c.h, c.ec)))
     = [(1, .ok), (2, .ok), (3, .ok), (4, .ok)] := by decide +kernel
 
+/-- non-vacuity: in that history a write IS parked at a label boundary (window full), and the
+    hypothesis of `C06_ack_wakes_writer` holds (ACK 1 pending) -/
+example : sview (TxS.run {} (TxS.init 1475) (histWriter.take 6))
+    = ((true, 100, [(1, 100)], 1), [], [1], []) := by decide +kernel
+example := C06_ack_wakes_writer 1475 (histWriter.take 6) 0 1 [] [] (by decide +kernel)
+
 /-! ### sender: retransmission -/
 
 /-- **The retransmission loop stops only at a segment that does not fit** (no synchronous
@@ -252,6 +260,22 @@ theorem C06_resend_drains (mss : Nat) (hm : 0 < mss) (ls : List TxLbl) (now : In
   refine ⟨t', ?_, e rfl rfl (by rw [hmss]; exact hm)⟩
   simp only [TxS.run, List.foldl_append, List.foldl_cons, List.foldl_nil]
   exact a.est.sock
+
+/-- MSS 10; the window grown to 32 by three ACKs, three segments out (3, 4, 5), two of them
+    handed back (window 10 again), then the ACK of the third: one retransmission fits, the
+    other stays -/
+def Prog.histDrain : List TxLbl :=
+  [.synack 0 [], .write 0 (wr 2 20 0) [], .deliver 0, .ack 0 0 [] [], .deliver 1, .ack 0 1 [] [],
+   .write 0 (wr 3 30 20) [], .deliver 2, .ack 0 2 [] [], .write 0 (wr 4 30 40) [],
+   .dropped 4, .dropped 5, .deliver 3]
+
+/-- non-vacuity of `C06_resend_drains`: ACK 3 is pending; after it one segment still waits for
+    retransmission while the retransmitted one (10 bytes) is in flight -/
+example : sview (TxS.run {} (TxS.init 10) histDrain) = ((false, 10, [(3, 10)], 2), [], [3], []) := by
+  decide +kernel
+example : sview (TxS.run {} (TxS.init 10) (histDrain ++ [.ack 0 3 [] []]))
+    = ((false, 10, [(4, 10)], 1), [4], [], []) := by decide +kernel
+example := C06_resend_drains 10 (by decide) histDrain 0 3 (by decide +kernel)
 
 /-- **A retransmission keeps its drop callback.** At every label boundary every segment in the
     network and every segment waiting for retransmission carries a drop callback bound to the
@@ -371,6 +395,41 @@ theorem C06_connect_completes_synack (tp : TParams) (n : NetSt) (now : Int) (nam
     n.tcpIncoming tp now name p
       = (n.setTcp name { t with connectH := none }, [NEff.post { h := h, ec := .ok }, .tcpWake name]) :=
   tcpIncoming_synack tp n now name t h p hs hc hty
+
+/-- non-vacuity of the acceptor-side theorems on the handshake's own states: the state after
+    listen + accept + connect (SYN on its way), and the state after listen + connect + SYN
+    arrival without an accept (SYN queued) -/
+def Prog.preSyn : NetSt :=
+  let n : NetSt := { cfg := cfg0 1475, tcps := [("a0", { node := "n1", acc := some {} }), (sockB, { node := "n1" }),
+                                                (sockA, { node := "n0" })] }
+  let n := (n.tcpOpen 0 "a0" true).1
+  let n := (n.tcpBind "a0" { addr := "0.0.0.0", port := 8000 }).1
+  let n := (n.accListen "a0" (-1)).1
+  let n := (n.accAsyncAccept 0 "a0" (.into 0 sockB false)).1
+  (n.tcpConnect 0 sockA epB 1).1
+
+def Prog.synPkt : Pkt := { id := 0, ty := .syn, len := 0, ovh := 28, src := "10.0.0.1:2000", chan := some 0 }
+
+example := C06_connect_completes_syn preSyn 0 "a0"
+  { node := "n1", isOpen := true, bound := epB, fwd := some 0, acc := some { queueLimit := 20, acceptOp := some (.into 0 sockB false) } }
+  { queueLimit := 20, acceptOp := some (.into 0 sockB false) } (.into 0 sockB false) 0
+  { chan0 with hops1 := ["qo0", "net", "qi1", "@0"] } { node := "n1" } synPkt
+  (by rfl) rfl rfl rfl rfl (by rfl) (by decide) (by rfl) rfl rfl rfl
+
+def Prog.preAccept : NetSt :=
+  let n : NetSt := { cfg := cfg0 1475, tcps := [("a0", { node := "n1", acc := some {} }), (sockB, { node := "n1" }),
+                                                (sockA, { node := "n0" })] }
+  let n := (n.tcpOpen 0 "a0" true).1
+  let n := (n.tcpBind "a0" { addr := "0.0.0.0", port := 8000 }).1
+  let n := (n.accListen "a0" (-1)).1
+  let n := (n.tcpConnect 0 sockA epB 1).1
+  (n.accIncoming 0 "a0" synPkt).1
+
+example := C06_connect_completes_queued preAccept 0 "a0"
+  { node := "n1", isOpen := true, bound := epB, fwd := some 0, acc := some { queueLimit := 20, conns := [0] } }
+  { queueLimit := 20, conns := [0] } 0 sockB false 0 []
+  { chan0 with hops1 := ["qo0", "net", "qi1", "@0"] } { node := "n1" }
+  (by rfl) rfl rfl rfl rfl (by rfl) (by decide) (by rfl) rfl rfl
 
 /-- … in the open system: after the `synack` label the connect handler of the initial state has
     been completed with `ok`, and the socket is established -/
